@@ -55,6 +55,9 @@ def parseFn : Sexp → Option Fn
   | .list [.atom "add", k] => k.asInt.map .add
   | .list [.atom "mod", k] => k.asInt.map .mod
   | .list [.atom "const", k] => k.asInt.map .const
+  -- `(fpush NAME V F)`: a user function that pushes into a subject the first time it is called (harness only, C07:
+  -- judged by the outcome of the real run; the model's functions are pure and ignore the push)
+  | .list [.atom "fpush", _, _, f] => parseFn f
   | _ => none
 
 def parsePred : Sexp → Option Pred
@@ -63,6 +66,7 @@ def parsePred : Sexp → Option Pred
   | .list [.atom "gt", k] => k.asInt.map .gt
   | .list [.atom "eq", k] => k.asInt.map .eq
   | .list [.atom "ne", k] => k.asInt.map .ne
+  | .list [.atom "push", _, _, p] => parsePred p      -- see `fpush`
   | _ => none
 
 def Pred.not : Pred → Data → Bool := fun p d => !p.app d
